@@ -55,6 +55,7 @@ def cbs(n, p, msl, M, growth, scorer, thr_scale, X=None, level=None):
         X = pd.DataFrame(np.zeros((n, p)))
     det.fit(X)
     y = det.predict(X)
+    core.emit("CircularBinarySegmentation", y, n=len(X), p=X.shape[1], msl=msl)
     if len(y) and y["ilocs"].array.closed != "left":
         raise AssertionError("anomaly intervals are not left-closed")
     an = [(int(iv.left), int(iv.right)) for iv in y["ilocs"]]
